@@ -151,7 +151,7 @@ class VLoop(asyncio.AbstractEventLoop):
             self.n_jumps += 1
             self._steps_at_jump = self.n_steps
         now = self._now
-        held = []
+        due = []
         while timers:
             h = timers[0]
             if h._cancelled:
@@ -159,15 +159,18 @@ class VLoop(asyncio.AbstractEventLoop):
                 continue
             if h._when <= now:
                 timers.pop(0)
-                if h is self._late_h and self._late_n > 0 and self._ready:
-                    # this one is noticed a few iterations late (only while other callbacks keep the loop busy)
-                    self._late_n -= 1
-                    held.append(h)
-                    continue
-                h._scheduled = False
-                self._ready.append(h)
+                due.append(h)
             else:
                 break
+        held = []
+        for h in due:
+            if h is self._late_h and self._late_n > 0 and (self._ready or len(due) > 1):
+                # this one is noticed a few iterations late (only while other callbacks keep the loop busy)
+                self._late_n -= 1
+                held.append(h)
+                continue
+            h._scheduled = False
+            self._ready.append(h)
         if held:
             timers[0:0] = held
         for _ in range(len(self._ready)):
